@@ -149,6 +149,7 @@ def gen(t, tier):
             sc['coverage'] = [0.24, 0.24, 0.26, 0.26] if t.chance(0.5) else [0.49, 0.49, 0.51, 0.51]
         if t.chance(0.35):
             sc['coverage'] = None       # whole extent: the per-level fast paths of every backend on a deep pyramid
+    sc['old_dirs'] = b['type'] == 'file' and bool(t.chance(0.2))
     if has_ts and t.chance(0.3):
         sc['pre_task'] = {'levels': sorted(set(t.choice(nlev) for _ in range(2)))}
     sc['tz'] = t.pick(C.TIMEZONES)
@@ -172,7 +173,7 @@ def shrink(sc):
                 yield c
         size //= 2
     for key, simple in (('coverage', None), ('cov_srs', '3857'), ('meta_size', [1, 1]), ('salt', None), ('after', 0.0),
-                        ('cache_refresh', None), ('pre_task', None)):
+                        ('cache_refresh', None), ('pre_task', None), ('old_dirs', False)):
         if sc.get(key, simple) != simple:
             c = copy.deepcopy(sc)
             c[key] = simple
@@ -378,6 +379,13 @@ def _run(sc, tape):
         # threshold
         k = min(sc['k'], len(tiles) - 1)
         tk = recorded[tuple(tiles[k][0])]
+        if sc.get('old_dirs') and onsim:
+            # the cache was restored from a backup (or copied with a tool that keeps file times only): every directory is
+            # older than any tile in it
+            for rel, val in w.fs.tree(copy=False).items():
+                if val is None and rel.startswith('/cache'):
+                    w.fs.utime('/simfs' + rel, (1.0e9, 1.0e9))
+            probes['directories_older_than_their_tiles'] = 1
         clock.now += sc['after']
         mode = sc['mode']
         cconf = {'caches': ['c1'], 'grids': ['g']}
